@@ -320,6 +320,9 @@ def stub_tie(ctx, rd, CALC, nstub):
         for si in range(s0, min(nstub, s0 + per)):
             nt = ctx.rng.randint(1, 4)
             n = ctx.rng.choice([4, 5, 6, 7, 9, 12, 15])
+            if si % 4 == 3 and n <= 9:
+                nt = n                      # square field: as many isotherms as volumes
+            ctx.count("stub field %s" % ("square (nt == nv)" if nt == n else "rectangular"))
             smooth = n >= 6 and ctx.rng.random() < 0.6
             mode = ctx.rng.choice(["inside", "inside", "edges", "outside"])
             v = np.array([300.0 * (1.25 - 0.5 * k / (n - 1)) for k in range(n)])       # decreasing
@@ -464,6 +467,9 @@ def make_plans(ctx, rd, ncalc):
                                 grun=(-2.2, -0.4) if soft else (0.4, 2.2))
         ntv = ctx.rng.choice([8, 10, 12, 15])
         nt = ctx.rng.randint(3, 4) if soft else ctx.rng.randint(1, 4)
+        if ci % 3 == 2:      # square grid: as many temperature rows (NT + the 4 rows QHA appends) as pressures / volumes
+            nt = ntv - 4
+        ctx.count("(T,V) grid %s" % ("square (NT+4 == NTV)" if nt + 4 == ntv else "rectangular"))
         base = dict(NT=nt, NTV=ntv, DT=ctx.rng.choice([100, 250]), volume_ratio=ctx.rng.choice([1.15, 1.2, 1.3]))
         base["DT_SAMPLE"] = base["DT"]
         d = rd / ("calc_%02d" % ci)
